@@ -2372,9 +2372,10 @@ HASH_OBJECT_Unmarshal(HASH_OBJECT *data, BYTE **buffer, INT32 *size)
                                  HASH_OBJECT_VERSION, HASH_OBJECT_MAGIC);
     }
     if (rc == TPM_RC_SUCCESS) {
-        rc = TPMI_ALG_PUBLIC_Unmarshal(&data->type, buffer, size);
-        if (rc == TPM_RC_TYPE)
-            rc = TPM_RC_SUCCESS;
+        /* A sequence object has type TPM_ALG_NULL; TPMI_ALG_PUBLIC_Unmarshal()
+         * rejects that value and restores the previous content of 'type', so
+         * the marshalled value would be lost. */
+        rc = TPM_ALG_ID_Unmarshal(&data->type, buffer, size);
     }
     if (rc == TPM_RC_SUCCESS) {
         rc = TPMI_ALG_HASH_Unmarshal(&data->nameAlg, buffer, size, TRUE);
